@@ -202,4 +202,48 @@ theorem formatBits_digitOk (bits : List (Option Bool)) : (formatBits bits).all (
   | some v => cases v <;> decide
 
 
+/-! ## `formatRange` / `formatState` (BitVectorState.h:488-556) -/
+
+/-- one digit character as `formatRange` / `formatState` write it -/
+def digitChar (v : Nat) : Char := if v < 10 then Char.ofNat ('0'.toNat + v) else Char.ofNat ('A'.toNat + (v - 10))
+
+/-- `formatRange(stream, state, base, offset, size)`: digits of `Log2C(base)` bits, most significant first; the leading digit is
+    filled up with (defined) zeros; a digit with an undefined bit inside the range prints `X`. `base ≤ 1` divides by zero in the code. -/
+def formatRange (v d : Plane) (base offset size : Nat) : String :=
+  let lb := log2c base
+  let ru := (size + lb - 1) / lb * lb
+  String.ofList ((List.range (ru / lb)).map fun i =>
+    let idxs := (List.range lb).map fun j => ru - 1 - i * lb - j
+    let allDef := idxs.all fun idx => !(decide (idx < size)) || bit d (offset + idx)
+    let val := idxs.foldl (fun acc idx => 2 * acc + (if idx < size && bit v (offset + idx) then 1 else 0)) 0
+    if allDef then digitChar val else 'X')
+
+/-- `formatState(stream, state, base, dropLeadingZeros)` (after ddf5a6b: hexadecimal digits as characters) -/
+def formatState (size : Nat) (v d : Plane) (base : Nat) (drop : Bool) : String :=
+  if base = 16 ∧ size % 4 = 0 then
+    let n := size / 4
+    let step (acc : List Char × Bool) (i : Nat) : List Char × Bool :=
+      let idxs := (List.range 4).map fun j => size - 1 - i * 4 - j
+      let allDef := idxs.all fun idx => bit d idx
+      let val := idxs.foldl (fun a idx => 2 * a + (if bit v idx then 1 else 0)) 0
+      if !acc.2 || val != 0 || i + 1 ≥ n then (acc.1 ++ [if allDef then digitChar val else 'X'], false) else acc
+    String.ofList ((List.range n).foldl step ([], drop)).1
+  else
+    let step (acc : List Char × Bool) (k : Nat) : List Char × Bool :=
+      let i := size - 1 - k
+      if !bit d i then (acc.1 ++ ['X'], false)
+      else if bit v i then (acc.1 ++ ['1'], false)
+      else if !acc.2 || i == 0 then (acc.1 ++ ['0'], acc.2) else acc
+    String.ofList ((List.range size).foldl step ([], drop)).1
+
+/-- specification of `formatRange` on bit arrays -/
+def specFormatRange (vb db : Bits) (base offset size : Nat) : String :=
+  let lb := log2c base
+  let ru := (size + lb - 1) / lb * lb
+  String.ofList ((List.range (ru / lb)).map fun i =>
+    let idxs := (List.range lb).map fun j => ru - 1 - i * lb - j
+    let allDef := idxs.all fun idx => !(decide (idx < size)) || sBit db (offset + idx)
+    let val := idxs.foldl (fun acc idx => 2 * acc + (if idx < size && sBit vb (offset + idx) then 1 else 0)) 0
+    if allDef then digitChar val else 'X')
+
 end Gatery.C18
